@@ -6,6 +6,7 @@
 #include <stdint.h>
 #include <signal.h>
 #include <unistd.h>
+#include <sys/mman.h>
 extern int64_t entry (void *);
 #define MAXLOG 4096
 static int64_t log_id[MAXLOG];
@@ -21,8 +22,10 @@ static void on_alarm (int s) { const char m[] = "TIMEOUT\n"; if (write (1, m, si
 int main (int argc, char **argv) {
   const char *hex = argc > 1 ? argv[1] : "";
   size_t n = strlen (hex) / 2, i;
-  unsigned char *buf = malloc (n + 64);
+  /* the caller's buffer has a known address (MIRSem.tla AbsBaseNat, as in mirrun.c): programs may address it with numbers */
+  unsigned char *buf = mmap ((void *) 0x10000000, 1 << 20, PROT_READ | PROT_WRITE, MAP_PRIVATE | MAP_ANONYMOUS | MAP_FIXED_NOREPLACE, -1, 0);
   int64_t ret;
+  if (buf != (unsigned char *) 0x10000000 || n + 64 > (1 << 20)) { printf ("F cannot map the call buffer\n"); return 2; }
   for (i = 0; i < n; i++) buf[i] = (unsigned char) (hv (hex[2 * i]) * 16 + hv (hex[2 * i + 1]));
   memset (buf + n, 0xEE, 64);
   signal (SIGALRM, on_alarm);
